@@ -398,6 +398,12 @@ def failing_calls_first():
         except Exception:  # noqa
             pass
     try:
+        from metapype.model.normalize import normalize as _normalize
+        _normalize("<a> <b>x</b>\t<c/> </a>", is_xml=True)
+        _normalize(" a  b ")
+    except Exception:  # noqa
+        pass
+    try:
         t = metapype_io.from_xml("<r xmlns:p='urn:u1' xmlns:q='urn:u2'><p:a q:k='v'><b>x</b>t<c/>u</p:a></r>")
         t.children[0].children[1].tail = 5
         metapype_io.to_xml(t)
